@@ -587,6 +587,7 @@ def run(ctx):
             process(ctx, chunk, triples, state)
             chunk = []
     large_layer(ctx)
+    crop_layer(ctx)
     ctx.notes["valid_pairs"] = state["ok"]
     ctx.notes["malformed_pairs_rejected_by_model"] = state["rejected"]
     ctx.notes["model_completeness"] = "total by construction (structural recursion); no None/fuel case exists"
@@ -667,9 +668,67 @@ def large_layer(ctx):
                 ctx.violation("large input: " + "; ".join(probs[:3]), {"large_shape": list(shape), "k": k, "seed": si, "backend": bk})
 
 
+def cropped_first(pred, ref, bk):
+    """the public sequence  pair.crop_data(); approximate_instances(pair)  -> (n_pred, n_ref, foreground sizes, labels ok) or error"""
+    from panoptica import ConnectedComponentsInstanceApproximator
+    from panoptica.utils.processing_pair import SemanticPair
+    try:
+        pair = SemanticPair(pred.copy(), ref.copy())
+        pair.crop_data()
+        out = ConnectedComponentsInstanceApproximator(cca_backend=_backend(bk)).approximate_instances(pair)
+        pa, ra = np.asarray(out.prediction_arr), np.asarray(out.reference_arr)
+        ok = sorted(int(x) for x in np.unique(pa) if x) == list(range(1, out.n_prediction_instance + 1)) and \
+            sorted(int(x) for x in np.unique(ra) if x) == list(range(1, out.n_reference_instance + 1))
+        return {"n_pred": int(out.n_prediction_instance), "n_ref": int(out.n_reference_instance), "fg_pred": int((pa != 0).sum()),
+                "fg_ref": int((ra != 0).sum()), "labels_1_to_n": ok}
+    except Exception as e:  # noqa
+        return {"error": type(e).__name__ + ": " + str(e)[:160]}
+
+
+def crop_layer(ctx):
+    """instances of a pair that was cropped first (crop_data is public API and what evaluate() does) = instances of the pair itself:
+    same counts, same foreground sizes, labels 1..n -- for maps embedded at an offset"""
+    rng = ctx.rng
+    for _ in range(ctx.scale(40, 400)):
+        nd = rng.choice([1, 2, 3])
+        shape = rand_shape(rng, nd)
+        a = np.array([rng.choice([0, 0, 1, 1, 2]) for _ in range(int(np.prod(shape)))], "uint8").reshape(shape)
+        b = a.copy()
+        fl = b.reshape(-1)
+        for _k in range(rng.randint(0, 3)):
+            fl[rng.randrange(fl.size)] = rng.choice([0, 1, 2])
+        pads = [(rng.randint(0, 6), rng.randint(0, 4)) for _k in range(nd)]
+        pred, ref = np.pad(a, pads), np.pad(b, pads)
+        bk = rng.choice([None, "cc3d", "scipy"])
+        if not pred.any() or not ref.any():
+            continue
+        base = run_impl(pred.copy(), ref.copy(), bk)
+        got = cropped_first(pred, ref, bk)
+        ctx.count({"crop_first": True, "pred": pred.tolist(), "ref": ref.tolist(), "backend": bk}, True)
+        ctx.bump(f"crop_data first/{nd}d/{bk or 'default'}")
+        if base["status"] != "ok":
+            continue
+        want = {"n_pred": int(base["n_pred"]), "n_ref": int(base["n_ref"]), "fg_pred": int((pred != 0).sum()), "fg_ref": int((ref != 0).sum()),
+                "labels_1_to_n": True}
+        if got != want:
+            ctx.violation("approximate_instances on a pair cropped with crop_data() differs from the uncropped pair: " +
+                          ", ".join(f"{k}: {got.get(k)} vs {want[k]}" for k in want if got.get(k) != want[k]) + (" " + got["error"] if "error" in got else ""),
+                          {"crop_first": True, "pred": pred, "ref": ref, "backend": bk, "observed": got, "expected": want})
+
+
 def replay(path):
     d = json.loads(open(path).read())
     private_engine()
+    if d.get("crop_first"):
+        pred, ref = common.arr_from_json(d["pred"]), common.arr_from_json(d["ref"])
+        base = run_impl(pred.copy(), ref.copy(), d["backend"])
+        got = cropped_first(pred, ref, d["backend"])
+        print("uncropped pair: n_pred =", base.get("n_pred"), "n_ref =", base.get("n_ref"), "foreground", int((pred != 0).sum()), int((ref != 0).sum()))
+        print("crop_data() first:", got)
+        ok = "error" not in got and got["n_pred"] == base.get("n_pred") and got["n_ref"] == base.get("n_ref") and \
+            got["fg_pred"] == int((pred != 0).sum()) and got["fg_ref"] == int((ref != 0).sum()) and got["labels_1_to_n"]
+        print("agree" if ok else "DIFFER")
+        return 0 if ok else 1
     if "large_shape" in d:
         shape = tuple(d["large_shape"])
         arr, boxes = block_map(shape, d["k"], d["seed"])
